@@ -35,7 +35,7 @@ SumMI(ms) == IF Len(ms) = 1 THEN ms[1] ELSE AddMI(ms[1], SumMI(Tail(ms)))
 SetToSeq(S) == LET RECURSIVE F(_)
                    F(T) == IF T = {} THEN <<>> ELSE LET x == CHOOSE x \in T : TRUE IN <<x>> \o F(T \ {x})
                IN F(S)
-GroupAvgNum(G, mid, x) == SumMI([j \in 1..Cardinality(G) |-> LET g == SetToSeq(G)[j] IN ActMI(Inv(g), InnerModel(mid, ActMI(g, x)))])
+GroupAvgNum(G, mid, x) == LET gs == SetToSeq(G) IN SumMI(Eager([j \in 1..Cardinality(G) |-> ActMI(Inv(gs[j]), InnerModel(mid, ActMI(gs[j], x)))]))
 Closed(G) == \A a \in G, b \in G : Mul(a, b) \in G
 AvgCommutes(G, mid, x) == \A h \in G : EqMI(ActMI(h, GroupAvgNum(G, mid, x)), GroupAvgNum(G, mid, ActMI(h, x)))
 
